@@ -34,8 +34,10 @@ TokIn(id, pkg)     == MkAtom(id, "tok", pkg, <<>>, <<>>, <<>>, "")
 TokImpl(id, impl)  == MkAtom(id, "tok", "a", <<>>, <<>>, impl, "")
 StructT(id, pkg, fields) == MkAtom(id, "struct", pkg, fields, <<>>, <<>>, "")
 Iface(id, pkg, embeds)   == MkAtom(id, "iface", pkg, <<>>, embeds, <<>>, "")
-Fld(name, type)          == [name |-> name, type |-> type, prevented |-> FALSE]
-FldP(name, type, prev)   == [name |-> name, type |-> type, prevented |-> prev]
+\* tag: how the renderer writes the struct tag: "" none | "pre" `wire:"-"` | "pre2" `json:"-" wire:"-"`
+\*      | "foreign" `hardwire:"-"` (NOT a prevention) | "other" `json:"x"`;  prevented <=> tag \in {"pre","pre2"}
+Fld(name, type)          == [name |-> name, type |-> type, prevented |-> FALSE, tag |-> ""]
+FldT(name, type, tag)    == [name |-> name, type |-> type, prevented |-> (tag \in {"pre", "pre2"}), tag |-> tag]
 Impl(iface, recv)        == [iface |-> iface, recv |-> recv]
 
 (* ---- leaves (things that can be passed to wire.Build / wire.NewSet) ----- *)
